@@ -1,7 +1,7 @@
 (** C01 - map semantics match a sorted-map model for every history and key type.
     Statements only; proofs are in Canon.v / Inv.v / Hist.v. *)
 From Coq Require Import List NArith ZArith Bool.
-From Mast Require Import Prim Key Tree KeyOrder Codec Store Diff World Erase Build Spec Canon Level Inv Hist Reload WorldInv.
+From Mast Require Import Prim Key Tree KeyOrder Codec Store Diff World Erase Build Spec Canon Level Inv Hist Reload WorldInv SpecLaws.
 Import ListNotations.
 
 (** For EVERY key type with a strict total order, every value type with decidable equality, every
@@ -52,6 +52,22 @@ Proof. exact (clone_ok K V cmp layer). Qed.
 Theorem C01_empty_tree : forall bf emp, (2 <= bf)%N ->
   canon K V cmp layer bf (Mast (LPtr (fresh_node K V)) 0 0%N bf (1 * bf)%N 1%N emp) [].
 Proof. exact (empty_canon K V cmp layer). Qed.
+
+(** The sorted-map model the theorems above refer to is a map (SpecLaws.v): an inserted key reads back
+    the inserted value, a deleted key reads back nothing, every other key is unaffected, and a
+    strictly sorted listing is determined by its lookups - so "the same map" and "the same listing"
+    are one notion, and C01_insert / C01_delete / C01_get are the usual get/put/delete laws. *)
+Theorem C01_model_get_after_insert : forall k v l, lookup K V cmp k (upsert K V cmp k v l) = Some v.
+Proof. exact (lookup_upsert_same K V cmp cmp_eq cmp_antisym). Qed.
+Theorem C01_model_insert_frames : forall k v k2, k <> k2 -> forall l, lookup K V cmp k2 (upsert K V cmp k v l) = lookup K V cmp k2 l.
+Proof. exact (lookup_upsert_other K V cmp cmp_eq). Qed.
+Theorem C01_model_get_after_delete : forall k l, ssorted K V cmp l -> lookup K V cmp k (remove K V cmp k l) = None.
+Proof. exact (lookup_remove_same K V cmp cmp_eq cmp_antisym). Qed.
+Theorem C01_model_delete_frames : forall k k2, k <> k2 -> forall l, lookup K V cmp k2 (remove K V cmp k l) = lookup K V cmp k2 l.
+Proof. exact (lookup_remove_other K V cmp cmp_eq). Qed.
+Theorem C01_model_extensional : forall a b, ssorted K V cmp a -> ssorted K V cmp b ->
+  (forall k, lookup K V cmp k a = lookup K V cmp k b) -> a = b.
+Proof. exact (sorted_ext K V cmp cmp_eq cmp_antisym cmp_trans). Qed.
 End GENERIC.
 
 (** The key type of the model ([key]: int / uint / string / []byte / marshaled struct / user Key) is
@@ -132,3 +148,8 @@ Print Assumptions C01_key_instance.
 Print Assumptions C01_persist_keeps_contents.
 Print Assumptions C01_refines_sorted_map_partial.
 Print Assumptions C01_refines_sorted_map.
+Print Assumptions C01_model_get_after_insert.
+Print Assumptions C01_model_insert_frames.
+Print Assumptions C01_model_get_after_delete.
+Print Assumptions C01_model_delete_frames.
+Print Assumptions C01_model_extensional.
